@@ -48,6 +48,13 @@ func genC01(seed int64, tier string) *Scenario {
 	kind := "deploy"
 	if hasOld && rng.Intn(3) == 0 {
 		kind = "rollout_deploy"
+		if rng.Intn(2) == 0 {
+			// an earlier rollout generation with an active split: the command
+			// under test then replaces rollout targets that are serving traffic
+			sc.Targets = append(sc.Targets, TargetSpec{Addr: "oldr0:80"})
+			op.Ops = append(op.Ops, Op{Kind: "rollout_deploy", Service: "web", Targets: []string{"oldr0:80"}, DeployTimeout: 5 * time.Second, DrainTimeout: 2 * time.Second, Tag: "old-rollout"})
+			op.Ops = append(op.Ops, Op{Kind: "rollout_set", Service: "web", Percent: 100, Allow: []string{"vip"}})
+		}
 	}
 	k := 1 + rng.Intn(4)
 	var names []string
@@ -151,7 +158,7 @@ func checkC01(r *RunResult) []Violation {
 	}
 	old := map[string]bool{}
 	for _, c := range w.Cmds {
-		if c != cmd && c.Op.Kind == "deploy" {
+		if c != cmd && (c.Op.Kind == "deploy" || c.Op.Tag == "old-rollout") {
 			for _, t := range c.Op.Targets {
 				old[t] = true
 			}
@@ -187,10 +194,14 @@ func checkC01(r *RunResult) []Violation {
 			}
 		}
 	}
+	z := slack(r.Sc)
 	if cmd.Ret == 0 {
+		// the command must report success or failure by deploy timeout + drain timeout
+		if limit := cmd.CallT + cmd.Op.DeployTimeout + cmd.Op.DrainTimeout + z; r.Virtual > limit+time.Second {
+			out = append(out, Violation{Prop: "C01", Clause: "command-did-not-report", Msg: fmt.Sprintf("%s %v was called at t=%v with deploy timeout %v and had neither succeeded nor reported failure when the run ended at t=%v", cmd.Op.Kind, cmd.Op.Targets, cmd.CallT, cmd.Op.DeployTimeout, r.Virtual)})
+		}
 		return out
 	}
-	z := slack(r.Sc)
 	deadline := cmd.CallT + cmd.Op.DeployTimeout
 	failed := cmd.Err != nil
 	if failed && !strings.Contains(cmd.Err.Error(), "failed to become healthy") {
